@@ -108,6 +108,9 @@ def build():
         """returns once the flag is set; while suspended handlers run (rely) and someone sets the flag"""
         if not I.ctx.branch(I.truth(I.read_field(env["self"].ref, "flag"))):
             if "self" in I.frames[0].env and I.frames[0].env["self"].ref.cls == "Game":
+                g = I.frames[0].env["self"].ref
+                emit(I, "flag.suspend", ev=env["self"].ref.name, ending=I.read_field(g, "ending"),
+                     adding=I.read_field(g, "_player_add_in_progress"))
                 rely(I)
             I.write_field(env["self"].ref, "flag", VBool(True))
         emit(I, "flag.waited", ev=env["self"].ref.name)
@@ -297,8 +300,21 @@ def build():
         """one loop iteration serves ONE turn: turn start, one ball, turn end, then at most one rotation (the extra
         balls are the inner loop, checked by its own clause)"""
         c = [x for x in calls(I) if x != "_award_extra_ball"]
-        return VBool(c in (["_start_player_turn", "_run_ball", "_end_player_turn"],
-                           ["_start_player_turn", "_run_ball", "_end_player_turn", "_rotate_players"]))
+        if c in (["_start_player_turn", "_run_ball", "_end_player_turn"],
+                 ["_start_player_turn", "_run_ball", "_end_player_turn", "_rotate_players"]):
+            return VBool(True)
+        if c in (["_start_player_turn", "_end_player_turn"], ["_start_player_turn", "_end_player_turn", "_rotate_players"]):
+            # a turn without a ball: only when the end of the game (or a slam tilt) was requested before the ball started
+            e = [x for x in I.cur_trace() if x.name == "call:_end_player_turn"][0]
+            return VBool(z3.Or(I.truth(e.args["ending"]), I.truth(e.args["slam"])))
+        return VBool(False)
+
+    def ball_only_without_pending_end(I):
+        """a ball is only started while no end of the game is pending: an end-game or slam-tilt request that arrives while
+        the turn is starting (player_turn_will_start / _starting / _started) is not forgotten"""
+        return VBool(z3.And(*[z3.And(z3.Not(I.truth(e.args["ending"])), z3.Not(I.truth(e.args["slam"])))
+                              for e in I.cur_trace() if e.name == "call:_run_ball"] + [z3.BoolVal(True)]))
+    C.helpers["ball_only_without_pending_end"] = ball_only_without_pending_end
     C.helpers["iteration_is_one_turn"] = iteration_word
     C.helpers["n_calls"] = lambda I, nm: VInt(len([x for x in calls(I) if x == I.pyconst(I.force(nm))]))
 
@@ -308,13 +324,15 @@ def build():
     C.helpers["extra_balls_only_while_not_ending"] = extra_ball_not_after_end
     C.trace_helpers = {"word", "word_starts", "n_posts", "kinds", "all_carry", "n_flag_set", "n_added_balls",
                        "n_remove_handler", "drain_handler_removed_once", "flag_cleared_only_before_start",
-                       "iteration_is_one_turn", "n_calls", "extra_balls_only_while_not_ending", "setup_done"}
+                       "iteration_is_one_turn", "n_calls", "extra_balls_only_while_not_ending", "setup_done",
+                       "ball_only_without_pending_end", "waits_can_end"}
 
     def call_emit(name):
         def e(I, env, res):
             g = env["self"].ref
             # the flags as they were when the call was made (the callee may change them)
-            emit(I, "call:" + name, ending=I.read_field(g, "ending", heap=I.old_heap))
+            emit(I, "call:" + name, ending=I.read_field(g, "ending", heap=I.old_heap),
+                 slam=I.read_field(g, "slam_tilted", heap=I.old_heap))
         return e
     RELY_MODS = ["self.ending", "self.slam_tilted", "self.player.extra_balls", "self.player_list.n",
                  "self.num_players", "self._balls_in_play", "self._end_ball_event.flag", "self._player_add_in_progress"]
@@ -417,10 +435,24 @@ def build():
          emits=call_emit("_award_extra_ball"), call_ensures=[MONO, SAMEP])
 
     # ---- game start / end
+    def waits_can_end(I):
+        """the game only suspends on 'at least one player exists' while somebody can still set it: a player add is in
+        flight, or one can still be requested (the game is not ending)"""
+        return VBool(z3.And(*[z3.Or(z3.Not(I.truth(e.args["ending"])), I.truth(e.args["adding"]))
+                              for e in I.cur_trace() if e.name == "flag.suspend" and
+                              "_at_least_one_player_event" in str(e.args["ev"])] + [z3.BoolVal(True)]))
+    C.helpers["waits_can_end"] = waits_can_end
+    for demo_, what_ in (("c06_end_game_while_game_starting.py", "a game ended inside game_starting ends (and a new one can start)"),
+                         ("c06_end_request_between_balls.py", "an end_game request made while a turn is starting ends the game "
+                                                              "before the next ball")):
+        C.finite_checks.append(common.native_demo_check(demo_, what_))
     C.fn("Game._start_game",
          ensures=[("G4: game_will_start, game_starting (queue, carrying the game), then - once a player exists - "
                    "game_started", "word_starts('game_will_start', 'game_starting') and "
-                   "all_carry(1, 1, game=self)"), MONO],
+                   "all_carry(1, 1, game=self)"), MONO,
+                  ("G4b: an end_game request inside game_starting does not leave the game waiting for a first player that "
+                   "can no longer be added (the game mode would stay active for ever and no new game could start)",
+                   "waits_can_end()")],
          modifies=RELY_MODS + ["self._at_least_one_player_event.flag", "self.player"], raises={},
          emits=lambda I, env, res: None,
          call_ensures=[MONO, ("at least one player has been added", "self.num_players >= 1")])
@@ -525,6 +557,9 @@ def build():
              body_ensures=[("L1: one loop pass is exactly one turn of one player: turn start, one ball, (extra "
                             "balls), turn end, and a rotation to the next player unless the game is over",
                             "iteration_is_one_turn()"),
+                           ("L1b: a ball is started only while no end of the game is pending - a request made between the "
+                            "balls (while the turn is starting) is honoured before the next ball, not after it has been "
+                            "played", "ball_only_without_pending_end()"),
                            ("L2: the game ends after the turn iff it was slam-tilted or the last player finished "
                             "their last ball (or an end was requested); otherwise the next player is up",
                             "implies(n_calls('_rotate_players') == 0, self.ending)")])
@@ -533,12 +568,15 @@ def build():
                         ("G3", "implies(self.player is not None, self.player.extra_balls >= 0 and "
                                "1 <= self.player.number <= self.num_players and self.player.ball >= 0)"),
                         ("G2", "self.num_players == len(self.player_list) and self.num_players >= 1"),
-                        ("G1", "0 <= self._balls_in_play <= self.machine.ball_controller.num_balls_known")],
+                        ("G1", "0 <= self._balls_in_play <= self.machine.ball_controller.num_balls_known"),
+                        ("requests are never taken back (also across the extra balls)",
+                         "implies(old_loop(self.ending), self.ending) and implies(old_loop(self.slam_tilted), "
+                         "self.slam_tilted)")],
              modifies=RELY_MODS,
              body_ensures=[("L3: an extra ball is only played while the game is not ending and not slam-tilted, and "
                             "consumes one of the player's extra balls",
                             "extra_balls_only_while_not_ending() and n_calls('_award_extra_ball') == 1")])
-    C.fn("Game._run", requires=[KNOWN],
+    C.fn("Game._run", requires=[KNOWN], shards=8,
          loops={0: RUN_OUTER, 1: RUN_EXTRA},
          # the same loop contracts by loop test, for when a clean-up moves a loop into a helper
          loops_by_text={"self.player.extra_balls": RUN_EXTRA, "not self.ending": RUN_OUTER},
